@@ -105,6 +105,18 @@ class Ctx:
         if len(self.notes) < 20:
             self.notes.append(text)
 
+    def emergency_dump_and_exit(self):
+        """for watchdogs inside a workload: the main thread is stuck, write what was observed and leave"""
+        import json as _json, os as _os
+        result = self.dump()
+        result['status'] = 'emergency-exit'
+        out = getattr(self, 'out_path', None)
+        if out:
+            with open(out + '.tmp', 'w') as f:
+                _json.dump(result, f)
+            _os.replace(out + '.tmp', out)
+        _os._exit(0)
+
     # ---- serialisation ----------------------------------------------------
     def dump(self):
         return {
